@@ -164,3 +164,165 @@ Inductive step_fp (fp : list (string * mask)) : item -> mask -> Prop :=
 | sf_list l : step_fp fp (IList l) (W [])                        (* unpacked onto EXEC *)
 | sf_instr k m : fp_lookup fp k = Some m -> step_fp fp (IInstr (s2l k)) m
 | sf_unknown n : (forall k, n = s2l k -> fp_lookup fp k = None) -> step_fp fp (IInstr n) (W []).
+
+(* ================================================================================== *)
+(* C10, second half: an instruction that lacks an operand only pops.                   *)
+
+(* [l'] is [l] with some top items removed *)
+Definition suffix {A} (l' l : list A) : Prop := exists k : nat, l' = skipn k l.
+
+(* nothing pushed, nothing changed: every typed stack lost at most some top items; INDEX stack,
+   queues, graphs, bindings, configuration and flags are equal *)
+Definition only_pops (s s' : state) : Prop :=
+  suffix (st_bool s') (st_bool s) /\ suffix (st_code s') (st_code s) /\ suffix (st_exec s') (st_exec s) /\
+  suffix (st_float s') (st_float s) /\ suffix (st_int s') (st_int s) /\ suffix (st_name s') (st_name s) /\
+  suffix (st_bvec s') (st_bvec s) /\ suffix (st_fvec s') (st_fvec s) /\ suffix (st_ivec s') (st_ivec s) /\
+  st_index s' = st_index s /\ st_input s' = st_input s /\ st_output s' = st_output s /\
+  st_graph s' = st_graph s /\ st_bind s' = st_bind s /\ st_cfg s' = st_cfg s /\
+  st_quote s' = st_quote s /\ st_send s' = st_send s.
+
+(* number of items a field holds (flags and configuration hold none) *)
+Definition depth (f : fld) (s : state) : nat :=
+  match f with
+  | FBool => length (st_bool s) | FCode => length (st_code s) | FExec => length (st_exec s)
+  | FFloat => length (st_float s) | FIndex => length (st_index s) | FInt => length (st_int s)
+  | FName => length (st_name s) | FBvec => length (st_bvec s) | FFvec => length (st_fvec s)
+  | FIvec => length (st_ivec s) | FInput => length (st_input s) | FOutput => length (st_output s)
+  | FGraph => length (st_graph s) | FBind => length (st_bind s) | FCfg | FQuote | FSend => O
+  end.
+
+Local Open Scope nat_scope.
+(* operand requirement: how many items of which stack the instruction needs in order to apply *)
+Definition need := list (fld * nat).
+Definition lacking_in (nd : need) (s : state) : bool :=
+  existsb (fun e => Nat.ltb (depth (fst e) s) (snd e)) nd.
+
+(* YANK / YANKDUP / SHOVE: the index and at least one item to act on *)
+Definition nd_family (pre : string) (f : fld) (ny : need) : list (string * need) :=
+  [ (pre ++ ".DUP", [(f, 1)]); (pre ++ ".POP", [(f, 1)]); (pre ++ ".SWAP", [(f, 2)]); (pre ++ ".ROT", [(f, 3)]);
+    (pre ++ ".FLUSH", []); (pre ++ ".YANK", ny); (pre ++ ".YANKDUP", ny); (pre ++ ".SHOVE", ny) ].
+Definition nd_vec_family (pre : string) (f : fld) : list (string * need) :=
+  [ (pre ++ ".DUP", [(f, 1)]); (pre ++ ".POP", [(f, 1)]); (pre ++ ".SWAP", [(f, 2)]);
+    (pre ++ ".FLUSH", []); (pre ++ ".YANK", [(FInt, 1); (f, 1)]); (pre ++ ".YANKDUP", [(FInt, 1); (f, 1)]);
+    (pre ++ ".SHOVE", [(FInt, 1); (f, 1)]) ].
+
+Definition nd_core : list (string * need) :=
+  [ ("NOOP", []) ] ++
+  nd_family "BOOLEAN" FBool [(FInt, 1); (FBool, 1)] ++
+  [ ("BOOLEAN.STACKDEPTH", []); ("BOOLEAN.DEFINE", [(FName, 1); (FBool, 1)]);
+    ("BOOLEAN.=", [(FBool, 2)]); ("BOOLEAN.AND", [(FBool, 2)]); ("BOOLEAN.OR", [(FBool, 2)]); ("BOOLEAN.NOT", [(FBool, 1)]);
+    ("BOOLEAN.FROMFLOAT", [(FFloat, 1)]); ("BOOLEAN.FROMINTEGER", [(FInt, 1)]); ("BOOLEAN.ID", []) ] ++
+  nd_family "INTEGER" FInt [(FInt, 2)] ++
+  [ ("INTEGER.STACKDEPTH", []); ("INTEGER.DEFINE", [(FName, 1); (FInt, 1)]);
+    ("INTEGER.%", [(FInt, 2)]); ("INTEGER.*", [(FInt, 2)]); ("INTEGER.+", [(FInt, 2)]); ("INTEGER.-", [(FInt, 2)]);
+    ("INTEGER./", [(FInt, 2)]); ("INTEGER.<", [(FInt, 2)]); ("INTEGER.=", [(FInt, 2)]);
+    ("INTEGER.>", [(FInt, 2)]); ("INTEGER.ABS", [(FInt, 1)]); ("INTEGER.DDUP", [(FInt, 2)]);
+    ("INTEGER.FROMBOOLEAN", [(FBool, 1)]); ("INTEGER.FROMFLOAT", [(FFloat, 1)]); ("INTEGER.ID", []);
+    ("INTEGER.MAX", [(FInt, 2)]); ("INTEGER.MIN", [(FInt, 2)]) ] ++
+  nd_family "FLOAT" FFloat [(FInt, 1); (FFloat, 1)] ++
+  [ ("FLOAT.STACKDEPTH", []); ("FLOAT.DEFINE", [(FName, 1); (FFloat, 1)]);
+    ("FLOAT.%", [(FFloat, 2)]); ("FLOAT.*", [(FFloat, 2)]); ("FLOAT.+", [(FFloat, 2)]); ("FLOAT.-", [(FFloat, 2)]);
+    ("FLOAT./", [(FFloat, 2)]); ("FLOAT.<", [(FFloat, 2)]); ("FLOAT.=", [(FFloat, 2)]);
+    ("FLOAT.>", [(FFloat, 2)]); ("FLOAT.COS", [(FFloat, 1)]); ("FLOAT.EXP", [(FFloat, 1)]);
+    ("FLOAT.FROMBOOLEAN", [(FBool, 1)]); ("FLOAT.FROMINTEGER", [(FInt, 1)]); ("FLOAT.ID", []);
+    ("FLOAT.MAX", [(FFloat, 2)]); ("FLOAT.MIN", [(FFloat, 2)]); ("FLOAT.SIN", [(FFloat, 1)]); ("FLOAT.TAN", [(FFloat, 1)]) ] ++
+  nd_family "NAME" FName [(FInt, 1); (FName, 1)] ++
+  [ ("NAME.STACKDEPTH", []); ("NAME.=", [(FName, 2)]); ("NAME.CAT", [(FName, 2)]); ("NAME.ID", []);
+    ("NAME.QUOTE", []); ("NAME.SEND", []) ] ++
+  nd_family "CODE" FCode [(FInt, 1); (FCode, 1)] ++
+  [ ("CODE.STACKDEPTH", []); ("CODE.DEFINE", [(FName, 1); (FCode, 1)]);
+    ("CODE.=", [(FCode, 2)]); ("CODE.APPEND", [(FCode, 2)]); ("CODE.ATOM", [(FCode, 1)]); ("CODE.CAR", [(FCode, 1)]);
+    ("CODE.CDR", [(FCode, 1)]); ("CODE.CONS", [(FCode, 2)]); ("CODE.CONTAINER", [(FCode, 2)]); ("CODE.CONTAINS", [(FCode, 2)]);
+    ("CODE.DEFINITION", [(FName, 1)]); ("CODE.DISCREPANCY", [(FCode, 2)]); ("CODE.DO", [(FCode, 1)]);
+    ("CODE.DO*", [(FCode, 1)]); ("CODE.LOOP", [(FCode, 1); (FIndex, 1)]); ("CODE.EXTRACT", [(FInt, 1); (FCode, 1)]);
+    ("CODE.FROMBOOLEAN", [(FBool, 1)]); ("CODE.FROMFLOAT", [(FFloat, 1)]);
+    ("CODE.FROMINTEGER", [(FInt, 1)]); ("CODE.FROMNAME", [(FName, 1)]); ("CODE.ID", []);
+    ("CODE.IF", [(FCode, 2); (FBool, 1)]); ("CODE.INSERT", [(FInt, 1); (FCode, 2)]); ("CODE.LENGTH", [(FCode, 1)]);
+    ("CODE.LIST", [(FCode, 2)]); ("CODE.MEMBER", [(FCode, 2)]); ("CODE.NOOP", []); ("CODE.NTH", [(FInt, 1); (FCode, 1)]);
+    ("CODE.NULL", [(FCode, 1)]); ("CODE.POSITION", [(FCode, 2)]); ("CODE.PRINT", [(FCode, 1)]);
+    ("CODE.QUOTE", [(FExec, 1)]); ("CODE.SIZE", [(FCode, 1)]); ("CODE.SUBST", [(FCode, 3)]) ] ++
+  nd_family "EXEC" FExec [(FInt, 1); (FExec, 1)] ++
+  [ ("EXEC.STACKDEPTH", []); ("EXEC.DEFINE", [(FName, 1); (FExec, 1)]);
+    ("EXEC.=", [(FExec, 2)]);
+    ("EXEC.CMD", [(FInt, 1)]);         (* the number of NAME operands is the INTEGER's value: a guard, not a fixed need *)
+    ("EXEC.LOOP", [(FExec, 1); (FIndex, 1)]);
+    ("EXEC.ID", []); ("EXEC.IF", [(FExec, 2); (FBool, 1)]); ("EXEC.K", [(FExec, 2)]); ("EXEC.S", [(FExec, 3)]);
+    ("EXEC.Y", [(FExec, 1)]) ] ++
+  [ ("INDEX.CURRENT", [(FIndex, 1)]); ("INDEX.DEFINE", [(FInt, 1)]); ("INDEX.DESTINATION", [(FIndex, 1)]);
+    ("INDEX.FLUSH", []); ("INDEX.INCREASE", [(FIndex, 1)]); ("INDEX.POP", [(FIndex, 1)]) ].
+
+Definition nd_bvec : list (string * need) :=
+  nd_vec_family "BOOLVECTOR" FBvec ++
+  [ ("BOOLVECTOR.STACKDEPTH", []); ("BOOLVECTOR.DEFINE", [(FName, 1); (FBvec, 1)]);
+    ("BOOLVECTOR.GET", [(FInt, 1); (FBvec, 1)]); ("BOOLVECTOR.SET", [(FInt, 1); (FBool, 1); (FBvec, 1)]);
+    ("BOOLVECTOR.AND", [(FBvec, 2); (FInt, 1)]); ("BOOLVECTOR.OR", [(FBvec, 2); (FInt, 1)]);
+    ("BOOLVECTOR.NOT", [(FBvec, 1); (FInt, 1)]);
+    ("BOOLVECTOR.COUNT", [(FBvec, 1)]); ("BOOLVECTOR.EQUAL", [(FBvec, 2)]); ("BOOLVECTOR.ID", []);
+    ("BOOLVECTOR.LENGTH", [(FBvec, 1)]); ("BOOLVECTOR.ONES", [(FInt, 1)]); ("BOOLVECTOR.ZEROS", [(FInt, 1)]);
+    ("BOOLVECTOR.ROTATE", [(FBool, 1); (FBvec, 1)]); ("BOOLVECTOR.SORT*ASC", [(FBvec, 1)]); ("BOOLVECTOR.SORT*DESC", [(FBvec, 1)]) ].
+
+Definition nd_ivec : list (string * need) :=
+  nd_vec_family "INTVECTOR" FIvec ++
+  [ ("INTVECTOR.STACKDEPTH", []); ("INTVECTOR.DEFINE", [(FName, 1); (FIvec, 1)]);
+    ("INTVECTOR.APPEND", [(FIvec, 1); (FInt, 1)]); ("INTVECTOR.BOOLINDEX", [(FBvec, 1)]);
+    ("INTVECTOR.GET", [(FInt, 1); (FIvec, 1)]); ("INTVECTOR.SET", [(FInt, 2); (FIvec, 1)]);
+    ("INTVECTOR.+", [(FIvec, 2); (FInt, 1)]); ("INTVECTOR.-", [(FIvec, 2); (FInt, 1)]);
+    ("INTVECTOR.CONTAINS", [(FInt, 1); (FIvec, 1)]); ("INTVECTOR.EMPTY", []);
+    ("INTVECTOR.EQUAL", [(FIvec, 2)]); ("INTVECTOR.FROMINT", [(FInt, 1)]); ("INTVECTOR.ID", []);
+    ("INTVECTOR.ONES", [(FInt, 1)]); ("INTVECTOR.ZEROS", [(FInt, 1)]); ("INTVECTOR.MEAN", [(FIvec, 1)]);
+    ("INTVECTOR.LENGTH", [(FIvec, 1)]); ("INTVECTOR.LOOP", [(FIvec, 1); (FExec, 1)]);
+    ("INTVECTOR.REMOVE", [(FIvec, 1); (FInt, 1)]);
+    ("INTVECTOR.ROTATE", [(FInt, 1); (FIvec, 1)]); ("INTVECTOR.SORT*ASC", [(FIvec, 1)]); ("INTVECTOR.SORT*DESC", [(FIvec, 1)]);
+    (* EXCEPTION (documented: "If no INTVECTOR item exists, a new one will be created"): on an empty
+       INTVECTOR stack an empty vector is pushed even without an INTEGER; recorded as needing nothing *)
+    ("INTVECTOR.SET*INSERT", []);
+    ("INTVECTOR.SUM", [(FIvec, 1)]) ].
+
+Definition nd_fvec : list (string * need) :=
+  nd_vec_family "FLOATVECTOR" FFvec ++
+  [ ("FLOATVECTOR.STACKDEPTH", []); ("FLOATVECTOR.DEFINE", [(FName, 1); (FFvec, 1)]);
+    ("FLOATVECTOR.GET", [(FInt, 1); (FFvec, 1)]); ("FLOATVECTOR.SET", [(FInt, 1); (FFloat, 1); (FFvec, 1)]);
+    ("FLOATVECTOR.+", [(FFvec, 2); (FInt, 1)]); ("FLOATVECTOR.-", [(FFvec, 2); (FInt, 1)]);
+    ("FLOATVECTOR.*", [(FFvec, 2); (FInt, 1)]); ("FLOATVECTOR./", [(FFvec, 2); (FInt, 1)]);
+    ("FLOATVECTOR.*SCALAR", [(FFloat, 1); (FFvec, 1)]); ("FLOATVECTOR.APPEND", [(FFvec, 1); (FFloat, 1)]);
+    ("FLOATVECTOR.EMPTY", []); ("FLOATVECTOR.EQUAL", [(FFvec, 2)]); ("FLOATVECTOR.ID", []);
+    ("FLOATVECTOR.LENGTH", [(FFvec, 1)]); ("FLOATVECTOR.MEAN", [(FFvec, 1)]);
+    ("FLOATVECTOR.ONES", [(FInt, 1)]); ("FLOATVECTOR.ZEROS", [(FInt, 1)]);
+    ("FLOATVECTOR.ROTATE", [(FFloat, 1); (FFvec, 1)]); ("FLOATVECTOR.SINE", [(FFloat, 3); (FInt, 1)]);
+    ("FLOATVECTOR.SORT*ASC", [(FFvec, 1)]); ("FLOATVECTOR.SORT*DESC", [(FFvec, 1)]); ("FLOATVECTOR.SUM", [(FFvec, 1)]) ].
+
+Definition nd_list : list (string * need) :=
+  [ ("LIST.ADD", [(FIvec, 1)]); ("LIST.REMOVE", [(FInt, 1); (FCode, 1)]); ("LIST.GET", [(FInt, 1); (FCode, 1)]);
+    ("LIST.SET", [(FInt, 1); (FIvec, 1)]); ("LIST.BVAL", [(FInt, 2); (FCode, 1)]); ("LIST.IVAL", [(FInt, 2); (FCode, 1)]);
+    ("LIST.FVAL", [(FInt, 2); (FCode, 1)]) ].
+
+Definition nd_io : list (string * need) :=
+  [ ("INPUT.AVAILABLE", []); ("INPUT.GET", [(FInt, 1); (FInput, 1)]); ("INPUT.NEXT", [(FInput, 1)]);
+    ("INPUT.READ", [(FInput, 1)]); ("INPUT.STACKDEPTH", []);
+    ("OUTPUT.FLUSH", []); ("OUTPUT.WRITE", [(FBvec, 1); (FIvec, 1)]); ("OUTPUT.STACKDEPTH", []) ].
+
+Definition nd_graph : list (string * need) :=
+  [ ("GRAPH.ADD", []); ("GRAPH.DUP", [(FGraph, 1)]); ("GRAPH.NODE*ADD", [(FGraph, 1); (FInt, 1)]);
+    ("GRAPH.NODE*GETSTATE", [(FGraph, 1); (FInt, 1)]); ("GRAPH.NODE*HISTORY", [(FInt, 2); (FGraph, 1)]);
+    ("GRAPH.NODE*SETSTATE", [(FGraph, 1); (FInt, 2)]);
+    ("GRAPH.NODE*NEIGHBORS", [(FGraph, 1); (FIvec, 1); (FInt, 1)]);
+    ("GRAPH.NODE*PREDECESSORS", [(FGraph, 1); (FIvec, 1); (FInt, 1)]);
+    ("GRAPH.NODE*SUCCESSORS", [(FGraph, 1); (FIvec, 1); (FInt, 1)]);
+    ("GRAPH.NODE*STATESWITCH", [(FGraph, 1); (FIvec, 1); (FBvec, 1); (FInt, 2)]);
+    ("GRAPH.NODES", [(FGraph, 1); (FIvec, 1)]); ("GRAPH.NODES*HISTORY", [(FInt, 1); (FGraph, 1); (FIvec, 1)]);
+    ("GRAPH.STACKDEPTH", []); ("GRAPH.PRINT", [(FGraph, 1)]); ("GRAPH.PRINT*DIFF", [(FGraph, 2)]);
+    ("GRAPH.EDGE*ADD", [(FGraph, 1); (FFloat, 1); (FInt, 2)]); ("GRAPH.EDGE*HISTORY", [(FInt, 3); (FGraph, 1)]);
+    ("GRAPH.EDGE*GETWEIGHT", [(FGraph, 1); (FInt, 2)]); ("GRAPH.EDGE*SETWEIGHT", [(FGraph, 1); (FFloat, 1); (FInt, 2)]) ].
+
+Definition nd_all : list (string * need) :=
+  nd_core ++ nd_bvec ++ nd_ivec ++ nd_fvec ++ nd_list ++ nd_io ++ nd_graph.
+
+Fixpoint nd_lookup (t : list (string * need)) (n : string) : option need :=
+  match t with
+  | [] => None
+  | (k, m) :: r => if String.eqb n k then Some m else nd_lookup r n
+  end.
+
+Definition needs (n : string) : need := match nd_lookup nd_all n with Some nd => nd | None => [] end.
+(* some needed operand is missing *)
+Definition lacking (n : string) (s : state) : bool := lacking_in (needs n) s.
